@@ -242,9 +242,9 @@ the decision for a one-line tree is the decision for the single piece of text it
 the emitted line back as text of that width, at the same column and options, gives the same answer. -/
 theorem layout_decision_stable (lineLen col : Nat) (is : Items) (h : flatOneLineItems is = true)
     (ho : optWidthItems is = 0) (hr : returnSpacesItems is = 0) :
-    broken lineLen col is = broken lineLen col (.cons (.str (flatWidthItems is) 1) .nil) := by
+    broken lineLen col is = broken lineLen col (.cons (.str (flatWidthItems is) []) .nil) := by
   have hm := LayoutLemmas.measure_items is h
-  have h2 : flatOneLineItems (.cons (.str (flatWidthItems is) 1) .nil) = true := by
+  have h2 : flatOneLineItems (.cons (.str (flatWidthItems is) []) .nil) = true := by
     simp [flatOneLineItems, flatOneLine]
   rw [LayoutLemmas.broken_eq_tooLong lineLen col is h,
     LayoutLemmas.broken_eq_tooLong lineLen col _ h2]
@@ -262,8 +262,8 @@ theorem layout_decision_monotone (lineLen lineLen' col col' : Nat) (is : Items)
 
 /-- Non-vacuity: `x = 1` as the tree the builder makes for an assignment. -/
 example :
-    let is : Items := .cons (.str 1 1) (.cons (.brk .spaceOrIndentIfNecessary) (.cons (.char 1)
-      (.cons (.brk .spaceOrIndentIfNecessary) (.cons (.str 1 1) .nil))))
+    let is : Items := .cons (.str 1 []) (.cons (.brk .spaceOrIndentIfNecessary) (.cons (.char 1)
+      (.cons (.brk .spaceOrIndentIfNecessary) (.cons (.str 1 []) .nil))))
     flatOneLineItems is = true ∧ broken 100 0 is = false ∧ lineLengthItems is = 5
       ∧ flatWidthItems is = 5 := by decide
 
@@ -272,11 +272,11 @@ example :
 stays on one line at line_length 20; `[1, 2]` is 6 columns wide but measures 7 (the optional
 trailing comma), so at line_length 6 it is broken although it would fit. -/
 theorem layout_measure_witnesses :
-    let imp : Items := .cons (.str 4 1) (.cons (.brk .spaceOrIndent) (.cons (.str 4 1)
-      (.cons (.brk .spaceOrReturn) (.cons (.str 6 1) (.cons (.brk .spaceOrIndent)
-      (.cons (.group (.cons (.str 4 1) .nil)) .nil))))))
-    let lst : Items := .cons (.char 1) (.cons (.brk .maybeIndent) (.cons (.str 1 1) (.cons (.char 1)
-      (.cons (.brk .spaceOrIndentIfNecessary) (.cons (.str 1 1) (.cons (.optChar 1)
+    let imp : Items := .cons (.str 4 []) (.cons (.brk .spaceOrIndent) (.cons (.str 4 [])
+      (.cons (.brk .spaceOrReturn) (.cons (.str 6 []) (.cons (.brk .spaceOrIndent)
+      (.cons (.group (.cons (.str 4 []) .nil)) .nil))))))
+    let lst : Items := .cons (.char 1) (.cons (.brk .maybeIndent) (.cons (.str 1 []) (.cons (.char 1)
+      (.cons (.brk .spaceOrIndentIfNecessary) (.cons (.str 1 []) (.cons (.optChar 1)
       (.cons (.brk .maybeReturn) (.cons (.char 1) .nil))))))))
     (broken 20 0 imp = false ∧ flatWidthItems imp = 21)
       ∧ (broken 6 0 lst = true ∧ flatWidthItems lst = 6 ∧ broken 7 0 lst = false) := by decide
